@@ -98,6 +98,13 @@ def check_one(prog):
         if re.search(r":- true\.\s*$", line) and not m:
             blocks.append((1.0, 1))      # a deterministically true query: one line of its own, no separator
             continue
+        if m and float(m.group(1)) == 1.0:
+            # a proof of probability 1 completes its query: the enumeration stops there and writes no separator line
+            if cur is not None:
+                blocks.append((cur, cnt))
+            blocks.append((1.0, 1))
+            cur, cnt = None, 0
+            continue
         if re.search(r":- fail\.\s*$", line):
             cur = (cur or 0.0)           # a query without proof is listed as `q :- fail.`
         else:
@@ -116,6 +123,19 @@ def check_one(prog):
 def run(pid, tier, seed):
     n = 2500 if tier == "thorough" else 200
     ps = progs.programs(seed * 49979687 + 23, n, max_choices=8, evidence=False, disj=False)
+    # certain and impossible "probabilistic" facts (1.0::t, 0.0::t), also under negation: every third program
+    import random as _random
+    from fractions import Fraction as _Fraction
+    _rng = _random.Random(seed * 31 + 23)
+    for _i, _p in enumerate(ps):
+        if _i % 3 == 0:
+            _idx = [j for j, st in enumerate(_p) if st[0] == "fact"]
+            # (preferably a fact that occurs under negation in some rule)
+            _negated = set(a for st in _p if st[0] in ("rule", "ad") for pos, a in st[2] if not pos)
+            _idx = [j for j in _idx if _p[j][2] in _negated] or _idx
+            if _idx:
+                _j = _rng.choice(_idx)
+                _p[_j] = ("fact", _Fraction(_rng.choice([0, 1, 1])), _p[_j][2])
     col = Collector("C23:kbest-and-explain-vs-possible-worlds",
                     "%d seeded evidence-free programs of the bounded family (stratified, incl. positive cycles, ADs, noisy-or); "
                     "kbest with the default options and with convergence 0.2 / 0.05, and the explain task's KBestFormula "
